@@ -156,6 +156,10 @@ def check(rep: Report, ctx: Ctx) -> None:
         rep.ob("R11.6", "window predicates agree", same, fi=sib,
                node=sib.node,
                detail=(f"cleaning: {pred.nf()} | unique graphs: {sp.nf()}"))
+    else:
+        rep.ob("R11.6", "window predicates agree", True, fi=sib,
+               node=sib.node, detail="not comparable: a window predicate "
+               "could not be extracted (see R11.4 / R9.6)")
 
     # ---- R11.8 ---------------------------------------------------------------
     rep.rule("R11.8", "the window's ends are the earliest start and the "
@@ -201,7 +205,7 @@ def check(rep: Report, ctx: Ctx) -> None:
 
 def _generic(nf: str) -> str:
     import re
-    return re.sub(r":[A-Za-z_\.]+\[", ":W[", nf)
+    return re.sub(r":[^\[\]:]*\[(\d+)\]", r":W[\1]", nf)
 
 
 def _by_whole_trace(d: S.Delete) -> tuple[bool, str]:
@@ -227,8 +231,27 @@ def _by_whole_trace(d: S.Delete) -> tuple[bool, str]:
 
 def _unwrap_in(w: S.V) -> Optional[S.In]:
     if isinstance(w, S.Not) and isinstance(w.item, S.In):
-        return S.In(w.item.col, w.item.what, not w.item.negated)
-    return w if isinstance(w, S.In) else None
+        w = S.In(w.item.col, w.item.what, not w.item.negated)
+    if not isinstance(w, S.In):
+        return None
+    # job_id IN (SELECT job_id WHERE job_id [NOT] IN S)  ==  job_id [NOT] IN S
+    for _ in range(3):
+        sel = w.what
+        if isinstance(sel, S.Select) and len(sel.cols) == 1 and isinstance(
+                sel.cols[0], S.Col) and sel.cols[0].nf() == "nodes.job_id" \
+                and isinstance(w.col, S.Col) and w.col.nf() == "nodes.job_id" \
+                and len(sel.where) == 1 and not sel.joins and not sel.having \
+                and not sel.group_by and sel.window is None:
+            inner = sel.where[0]
+            if isinstance(inner, S.Not) and isinstance(inner.item, S.In):
+                inner = S.In(inner.item.col, inner.item.what,
+                             not inner.item.negated)
+            if isinstance(inner, S.In) and isinstance(inner.col, S.Col) \
+                    and inner.col.nf() == "nodes.job_id":
+                w = S.In(w.col, inner.what, w.negated != inner.negated)
+                continue
+        break
+    return w
 
 
 def _dangling(rep: Report, fi: FuncInfo, it: S.SqlInterp) -> None:
